@@ -75,5 +75,12 @@ func main() {
 		fmt.Fprintln(os.Stderr, "unknown tier", os.Args[2])
 		os.Exit(2)
 	}
-	os.Exit(f(tier))
+	rc := f(tier)
+	if exitHook != nil {
+		exitHook()
+	}
+	os.Exit(rc)
 }
+
+// exitHook is set by the coverage-audit build (covaudit.go, tag covaudit).
+var exitHook func()
